@@ -932,6 +932,60 @@ func CheckTypedReadback(rep Reporter, eng Engine, ts *rs.TypeSystem, t *rs.Type,
 		return // C08's business
 	}
 	sig := eng.Name() + ":" + t.Kind + reprName(t)
+	// The whole value handed over as ONE node of another implementation (basicnode, the harness's own) with a
+	// single AssignNode on the top-level builder — "assigning an existing node from any implementation". At
+	// representation level every value is a plain tree, so this is always expressible; at type level when no
+	// map below has struct keys. (Written after a seeding sub-agent stumbled over generated map builders
+	// panicking on exactly this call.)
+	if rng != nil {
+		type route struct {
+			lvl   string
+			proto datamodel.NodePrototype
+			val   model.Val
+			ok    bool
+		}
+		_, reprP := eng.Proto(t.Name)
+		rv, rerr := ts.ReprOf(t, tv)
+		routes := []route{{"representation", reprP, rv, rerr == nil && reprP != nil}, {"type-level", typed, in, !hasComplexKeys(ts, t, map[string]bool{}, true)}}
+		for _, rt := range routes {
+			if !rt.ok {
+				continue
+			}
+			var src datamodel.Node = fnode.New(rt.val)
+			impl := "harness node"
+			if rng.Bool() {
+				if n, err := Feed(basicnode.Prototype.Any, rt.val), error(nil); err == nil && n.Accepted {
+					src, impl = n.Node, "basicnode"
+				}
+			}
+			var out Outcome
+			func() {
+				defer func() {
+					if r := recover(); r != nil {
+						out = Outcome{Panic: fmt.Sprintf("%v\n%s", r, clip(string(debug.Stack()), 1500))}
+					}
+				}()
+				nb := rt.proto.NewBuilder()
+				if err := nb.AssignNode(src); err != nil {
+					out = Outcome{Err: err}
+					return
+				}
+				out = Outcome{Accepted: true, Node: nb.Build()}
+			}()
+			rep.Count("typed_whole_value_assignnode", 1)
+			ctx := fmt.Sprintf("engine %s, type %s, %s builder, AssignNode(%s holding %s)", eng.Name(), t.Name, rt.lvl, impl, clip(rt.val.Dump(), 400))
+			switch {
+			case out.Panic != "":
+				rep.Deviate("C01:typed:assignnode-whole-value:panic:"+rt.lvl+":"+sig, "AssignNode of a conforming value held by another implementation panicked: "+out.Panic+"\n"+ctx)
+			case !out.Accepted:
+				rep.Deviate("C01:typed:assignnode-whole-value:rejected:"+rt.lvl+":"+sig, fmt.Sprintf("AssignNode of a conforming value held by another implementation failed: %v\n%s", out.Err, ctx))
+			default:
+				if got := ReadTyped(out.Node); !model.Equal(got, tv) {
+					rep.Deviate("C01:typed:assignnode-whole-value:readback-differs:"+rt.lvl+":"+sig, fmt.Sprintf("%s\nreads back %s, expected %s\n%s", model.FirstDiff(got, tv), clip(got.Dump(), 400), clip(tv.Dump(), 400), ctx))
+				}
+			}
+		}
+	}
 	for _, lvl := range []string{"type-level", "representation"} {
 		n := o.Node
 		if lvl == "representation" {
